@@ -156,8 +156,8 @@ impl<K: Eq, V, S> HashMap<K, V, S> {
     pub fn clear(&mut self) {
         self.items.clear();
     }
-    pub fn extend(&mut self, other: HashMap<K, V, S>) {
-        for (k, v) in other.items {
+    pub fn extend<I: IntoIterator<Item = (K, V)>>(&mut self, other: I) {
+        for (k, v) in other {
             self.insert(k, v);
         }
     }
